@@ -473,12 +473,23 @@ def _eq(left: object, right: object) -> bool:  # noqa: PLR0911
     if left is NOTHING and right is NOTHING:
         return True
 
-    # Remember 1 == True and 0 == False in Python
-    if isinstance(right, bool):
-        left, right = right, left
+    return _json_eq(left, right)
 
-    if isinstance(left, bool):
-        return isinstance(right, bool) and left == right
+
+def _json_eq(left: object, right: object) -> bool:
+    # Remember 1 == True and 0 == False in Python, at any depth.
+    if isinstance(left, bool) or isinstance(right, bool):
+        return isinstance(left, bool) and isinstance(right, bool) and left == right
+
+    if isinstance(left, list) and isinstance(right, list):
+        return len(left) == len(right) and all(
+            _json_eq(a, b) for a, b in zip(left, right)  # noqa: B905
+        )
+
+    if isinstance(left, dict) and isinstance(right, dict):
+        return left.keys() == right.keys() and all(
+            _json_eq(val, right[key]) for key, val in left.items()
+        )
 
     return left == right
 
